@@ -66,6 +66,26 @@ def tables(chk, drv):
             impl.append({'starts': tolist(L.mpi_starts(0)), 'lengths': tolist(L.mpi_lengths(0)),
                          'max': int(L.max_block_shape[0]), 'last': int(L.ends[0])})
             chk.count('p>n')
+    # large extents / many processes (production sizes and beyond): the closed form in unbounded integers
+    big = [(99999, 50000), (2 ** 20 + 7, 2 ** 16 + 1), (2 ** 31 + 1, 3), (2 ** 33 + 5, 7), (3 * 2 ** 30, 2 ** 10 + 1), (123457, 65535)]
+    for n, p in big[:chk.n(4, 6)]:
+        L = Layout('x', [p], [0], [range(n)], [p - 1])
+        st, ln = [int(x) for x in L.mpi_starts(0)], [int(x) for x in L.mpi_lengths(0)]
+        small, nbig = n // p, n % p
+        exp = [small * r + nbig * r // p for r in range(p + 1)]
+        got_ok = st == exp[:-1] and ln == [b - a for a, b in zip(exp[:-1], exp[1:])] and int(L.ends[0]) == n \
+            and int(L.max_block_shape[0]) == small + (1 if nbig else 0)
+        if not got_ok:
+            bad = next((r for r in range(p) if st[r] != exp[r] or ln[r] != exp[r + 1] - exp[r]), p - 1)
+            chk.fail('C02:split-large', 'extent n over p ranks: the ranges are not the balanced partition (first wrong rank %d)' % bad,
+                     {'n': n, 'p': p, 'rank': bad}, expected={'start': exp[bad], 'length': exp[bad + 1] - exp[bad], 'last_end': n},
+                     actual={'start': st[bad], 'length': ln[bad], 'last_end': int(L.ends[0])})
+        mo = drv.call({'op': 'split', 'n': n, 'p': p})
+        if mo['starts'][:3] + mo['starts'][-3:] != st[:3] + st[-3:] or mo['last'] != int(L.ends[0]):
+            chk.diff('split tables (large)', {'n': n, 'p': p}, {'starts_head_tail': mo['starts'][:3] + mo['starts'][-3:], 'last': mo['last']},
+                     {'starts_head_tail': st[:3] + st[-3:], 'last': int(L.ends[0])})
+        chk.case(('split-large', n, p), nontrivial=True)
+        chk.count('large split tables')
     for rq, im, mo in zip(reqs, impl, drv.batch(reqs)):
         if im != mo:
             chk.diff('split tables', rq, mo, im)
